@@ -858,13 +858,8 @@ func (s *clientSocket) _sendBuffers(volatile, forceSend bool, ackID *uint64, buf
 			}
 		}
 
-		// Until the server has answered the CONNECT packet this socket is not attached to its
-		// namespace: the server closes the whole connection (and with it every other namespace
-		// multiplexed on it) if it receives a packet for a namespace that is not joined.
-		// So packets emitted while the CONNECT is pending are buffered, and are flushed
-		// by emitBuffered once the CONNECT reply arrives.
 		s.stateMu.RLock()
-		sendImmediately := s.state == clientSocketConnStateConnected
+		sendImmediately := s.state == clientSocketConnStateConnected || s.state == clientSocketConnStateConnectPending
 		s.stateMu.RUnlock()
 		if sendImmediately || forceSend {
 			s.manager.packet(packets...)
